@@ -162,6 +162,15 @@ def handleByCds (j : Json) : R Json := do
                ("labels", jInts (tags.filter fun n => (lookup n).isSome)),
                ("scope", b true), ("nontrivial", b (m.length > 1))]
 
+def handleRuleOpts (j : Json) : R Json := do
+  let rules ← listOf (fun e => do return (← asInt (← idx e 0), ← asInt (← idx e 1))) (← fld j "rules")
+  let names ← listOf asInt (← fld j "names")
+  let cats ← listOf asInt (← fld j "cats")
+  let m := restrictRules rules names cats
+  return jObj [("model", jInts (m.map (·.1))), ("model_rev", jInts ((restrictRules rules names.reverse cats.reverse).map (·.1))),
+               ("enabled", jInts (enabledTypesOf rules names cats)),
+               ("scope", b true), ("nontrivial", b (m.length > 1 && m.length < rules.length))]
+
 def handle (j : Json) : R Json := do
   match ← strF j "k" with
   | "names" => handleNames j
@@ -173,6 +182,7 @@ def handle (j : Json) : R Json := do
   | "areas" => handleAreas j
   | "outside" => handleOutside j
   | "bycds" => handleByCds j
+  | "ruleopts" => handleRuleOpts j
   | k => throw s!"C17: unknown kind {k}"
 
 end ASV.Drv.C17
